@@ -309,7 +309,12 @@ class Evaluator:
         if isinstance(f, ast.Attribute):
             recv = self.eval(f.value)
             args = self._elts(e.args)
-            if isinstance(recv, str) and f.attr in PURE_STR_METHODS | {"join", "split", "replace", "format"}:
+            if isinstance(recv, bytes) and f.attr == "decode":
+                try:
+                    return recv.decode(*args)
+                except Exception as ex:
+                    raise NotStatic(f"raises {type(ex).__name__}: {ex}") from ex
+            if isinstance(recv, str) and f.attr in PURE_STR_METHODS | {"join", "split", "replace", "format", "encode"}:
                 try:
                     return getattr(recv, f.attr)(*args)
                 except Exception as ex:
@@ -335,7 +340,7 @@ class Evaluator:
                     try:
                         return PURE_BUILTINS[f.id](*args, **kw)
                     except Exception as ex:
-                        raise NotStatic(str(ex)) from ex
+                        raise NotStatic(f"raises {type(ex).__name__}: {ex}") from ex
             target = self.lookup(f.id)
             if isinstance(target, tuple) and target[0] == "func":
                 return self.call_function(target[1], target[2], self._elts(e.args),
